@@ -431,6 +431,11 @@ pub mod spec {
         ensures s@ == k@ ==> (#[trigger] vstd::std_specs::hash::contains_borrowed_key::<String, V, str>(m, k) == #[trigger] m.contains_key(s));
     pub broadcast axiom fn ax_string_borrow_maps<V>(m: Map<String, V>, k: &str, s: String, v: V)
         ensures s@ == k@ ==> (#[trigger] vstd::std_specs::hash::maps_borrowed_key_to_value::<String, V, str>(m, k, v) == (#[trigger] m.contains_key(s) && m[s] == v));
+    /// A-string-ext: two Strings with the same characters are the same value (the map axioms above already rely on this), and a String prints as itself
+    pub broadcast axiom fn ax_string_ext(a: String, b: String)
+        ensures #![trigger a@, b@] a@ == b@ ==> a == b;
+    pub broadcast axiom fn ax_str_of_string(s: String)
+        ensures #[trigger] str_of(s) == s@;
     /// A-string-eq (continued): `String == str` is character-wise equality
     pub assume_specification[<String as PartialEq<str>>::eq](a: &String, b: &str) -> (r: bool)
         ensures r == (a@ == b@);
@@ -455,7 +460,7 @@ pub mod spec {
     pub assume_specification[<crate::push::graph::Graph as Clone>::clone](a: &crate::push::graph::Graph) -> (b: crate::push::graph::Graph) ensures b == *a;
     pub assume_specification[<crate::push::io::PushMessage as Clone>::clone](a: &crate::push::io::PushMessage) -> (b: crate::push::io::PushMessage) ensures b == *a;
     pub broadcast group group_clone {
-        ax_string_key_model, ax_string_obeys_eq, ax_string_eq_spec, ax_string_borrow_contains, ax_string_borrow_maps, ax_clone_item, ax_clone_boolvector, ax_clone_intvector, ax_clone_floatvector, ax_clone_index, ax_clone_graph, ax_clone_message,
+        ax_string_key_model, ax_string_obeys_eq, ax_string_eq_spec, ax_str_of_string, ax_string_borrow_contains, ax_string_borrow_maps, ax_clone_item, ax_clone_boolvector, ax_clone_intvector, ax_clone_floatvector, ax_clone_index, ax_clone_graph, ax_clone_message,
     }
     
     /// C01's resource envelope: every stack, vector and record is smaller than 2^31-1 items.
